@@ -28,7 +28,11 @@ ILL = ['amount > "x"', 'contains(5)', '-description == 1', 'len(amount) > 0', 'n
        'all(r.nope for r in orders)', 'len(r for r in orders) > 0', 'round("x") > 0', 'trim(1, 2) == ""',
        # the whole expression is a bare generator / comprehension: it fails only when the caller materialises it
        '(d for d in amount)', '(r.n for r in month)', '(r.nope for r in orders)', '[d for d in amount]', '(x for x in unknownvar)',
-       '(r.n + "x" for r in orders)', '(r for r in orders if r.nope)', '(a for a in orders for b in a.n)']
+       '(r.n + "x" for r in orders)', '(r for r in orders if r.nope)', '(a for a in orders for b in a.n)',
+       # a valid pattern with a replacement the regex engine rejects (group reference without a group, dangling backslash)
+       'regex_replace(description, "O", "\\\\1") == ""', 'regex_replace(description, "zzz", "\\\\g<name>") == ""',
+       'regex_replace(description, "O", "x\\\\") == ""', 'extract(description, "(?P<n>O)(?P<n>R)") == ""', 'regex("O{2,1}")',
+       'regex("(?<=O+)X")', 'split(description, "", 0) == ""']
 
 GOOD_BEFORE = '[Before]\nmatch: contains("ALFA")\ncategory: Food\ntags: b4\n'
 GOOD_AFTER = '[After]\nmatch: contains("STORE")\ncategory: Shop\nsubcategory: Misc\ntags: aft\n'
